@@ -49,7 +49,7 @@ func split(ctx context.Context, r io.Reader) (<-chan string, <-chan error) {
 		}
 		if err := sc.Err(); err != nil {
 			verifPoint("split.err")
-			errc <- err
+			sendErr(ctx, errc, err)
 			return
 		}
 		verifPoint("split.last")
@@ -62,6 +62,15 @@ func split(ctx context.Context, r io.Reader) (<-chan string, <-chan error) {
 	}()
 
 	return blockc, errc
+}
+
+// sendErr hands err to the error channel of a stage, unless the pipeline has already been cancelled: handlePipelineErr
+// receives at most one value per channel, so an unconditional send could block its goroutine forever.
+func sendErr(ctx context.Context, errc chan<- error, err error) {
+	select {
+	case errc <- err:
+	case <-ctx.Done():
+	}
 }
 
 func isRootBlockBeginning(l string) bool {
